@@ -60,6 +60,13 @@ func replaceSuffixes(inputLines *bytes.Buffer, suffixReplacements map[string]str
 		return inputLines.String(), nil
 	}
 
+	// apply the replacements in a fixed order, map iteration order is random
+	matches := make([]string, 0, len(suffixReplacements))
+	for match := range suffixReplacements {
+		matches = append(matches, match)
+	}
+	sort.Strings(matches)
+
 	var sb strings.Builder
 	scanner := bufio.NewScanner(inputLines)
 	scanner.Split(bufio.ScanLines)
@@ -67,7 +74,8 @@ func replaceSuffixes(inputLines *bytes.Buffer, suffixReplacements map[string]str
 	for scanner.Scan() {
 		entry := scanner.Text()
 		if !skipRegex.MatchString(entry) {
-			for match, replacement := range suffixReplacements {
+			for _, match := range matches {
+				replacement := suffixReplacements[match]
 				var found bool
 				entry, found = strings.CutSuffix(entry, match)
 				if found && replacement != `""` {
